@@ -3,7 +3,8 @@
     (floating point is not modelled; no square roots: the rescaled weights are "any w >= 0 with w_i^2 * scale = b_i^2").
     Notation: F = Fmat fs px is the dense symmetric completion of the filtered upper-triangular pixel table
     (diagonal once); rowsum F n b i = b_i * sum_j F_ij b_j is the i-th row sum of diag(b) F diag(b). *)
-From Cooler Require Import Model.Balance Proofs.BalanceProofs.
+From Cooler Require Import Model.Query Model.Balanced Proofs.QueryProofs Proofs.QueryMain Proofs.BalancedProofs.
+From Cooler Require Import Model.Balance Proofs.BalanceProofs Proofs.BalanceIntegration.
 Open Scope Z_scope.
 
 (** C10.1  sparse marginal = dense row sum (true only because a diagonal pixel is counted once, repair D11) *)
@@ -262,6 +263,82 @@ Theorem C10_trans_rowsum_refuted :
 Proof. exact trans_rowsum_refuted. Qed.
 Print Assumptions C10_trans_rowsum_refuted.
 
+(** the whole cis-only run of the model (masks, per-chromosome loops in sequence, NaN marking): for every chromosome
+    [lo,hi) and every bin i of it, NaN iff excluded by a documented filter or the chromosome has no remaining
+    intra-chromosomal data; all other weights positive.  ranges = consecutive chromosome bin ranges tiling [0,n);
+    BlockSep: the bins of a chromosome share their chromosome id with no other bin; rows_sorted: pixels sorted by bin1 *)
+Theorem C10_balance_cis_nan_set : forall o n chroms offsets px rs,
+  o_cis o = true -> 1 <= eff_chunk o (zlen px) -> good_px n px = true -> rows_sorted px ->
+  length (x0_bias n (o_x0 o)) = n -> NonNeg (x0_bias n (o_x0 o)) ->
+  Chain 0 (combine (removelast offsets) (tl offsets)) (Z.of_nat n) ->
+  (forall lo hi, In (lo, hi) (combine (removelast offsets) (tl offsets)) -> BlockSep chroms n lo hi) ->
+  balance o n chroms offsets px = Some rs ->
+  Forall2 (fun lohi r =>
+     forall i, fst lohi <= i < snd lohi ->
+       (onth (c_bias r) (i - fst lohi) = None <->
+          AllZero (fun a b => Fmat (base_filters o chroms) px (fst lohi + a) (fst lohi + b)) (Z.to_nat (snd lohi - fst lohi))
+                  (slice (initial_bias o n chroms offsets px) (fst lohi) (snd lohi)) \/
+          (qnth (x0_bias n (o_x0 o)) i == 0)%Q \/ masked_nnz o n chroms px i \/ masked_count o n chroms px i \/
+          masked_mad o n chroms offsets px i \/ In i (o_black o)) /\
+       (forall x, onth (c_bias r) (i - fst lohi) = Some x -> (0 < x)%Q))
+    (combine (removelast offsets) (tl offsets)) rs.
+Proof. exact balance_cis_nan_set. Qed.
+Print Assumptions C10_balance_cis_nan_set.
+
+(** C10 + C12 + C03: what a user reads back after balancing is flat.
+    [epx, off] is a schema-valid symmetric-upper collection; balancing ran genome-wide with ignore_diags = 0 (no data
+    filter, fs = []: the read below is of the UNFILTERED matrix) from entering weights b (zero on masked bins) and
+    stopped with var < tol; the stored column w holds the rescaled weights (StoredWeights: w_j >= 0,
+    w_j^2 * scale = b_j^2, NaN where the final weight is 0; NaN reads as 0 in a sum).  Then the dense balanced read
+    matrix(balance=True) of the whole matrix (multiplicative weights) exists, and the nan-sum of every row of a
+    retained bin with data lies in [1/(1+eps), 1/(1-eps)]; rows of masked bins are all NaN (C10_balanced_read_rowsum). *)
+Theorem C10_balanced_read_flat : forall n epx off cs cols balance dw name w chunk tol fuel b bb mu v k eps,
+  ValidCSR n epx off -> Upper epx -> 1 <= cs -> zlen w = n ->
+  weight_name balance = Some name -> lookup_weights cols name = Some w ->
+  effective_divisive balance dw = false ->
+  chunk_ok chunk -> good_px (Z.to_nat n) (map snd epx) = true ->
+  length b = Z.to_nat n -> NonNeg b ->
+  ic_loop (margf_gw (Z.to_nat n) (balance_spans (zlen (map snd epx)) chunk) [] (map snd epx)) tol fuel b = Some (bb, Some mu, v, k) ->
+  (v < tol)%Q -> (0 <= eps)%Q -> (eps < 1)%Q ->
+  (nnz_rows (Fmat [] (map snd epx)) (Z.to_nat n) b * tol <= eps * eps * mu * mu)%Q ->
+  StoredWeights w bb mu ->
+  exists D, matrix_balanced epx off cs true Dense cols balance dw (0, n, 0, n) = Some (BDense D) /\
+    forall a, 0 <= a < n -> ~ (rowsum (Fmat [] (map snd epx)) (Z.to_nat n) b a == 0)%Q ->
+      (1 / (1 + eps) <= row_nansum D a (Z.to_nat n) /\ row_nansum D a (Z.to_nat n) <= 1 / (1 - eps))%Q.
+Proof. exact balanced_read_flat. Qed.
+Print Assumptions C10_balanced_read_flat.
+
+(** the read itself: for ANY stored weight column (NaN = masked) the nan-sum of row a of the balanced dense read is the
+    a-th row sum of diag(w) S diag(w), S = symmetric completion of the stored table; a masked row is all NaN *)
+Theorem C10_balanced_read_rowsum : forall n epx off cs cols balance dw name w,
+  ValidCSR n epx off -> Upper epx -> 1 <= cs -> zlen w = n ->
+  weight_name balance = Some name -> lookup_weights cols name = Some w ->
+  effective_divisive balance dw = false ->
+  exists D, matrix_balanced epx off cs true Dense cols balance dw (0, n, 0, n) = Some (BDense D) /\
+    forall a, 0 <= a < n ->
+      (row_nansum D a (Z.to_nat n) == rowsum (Fmat [] (map snd epx)) (Z.to_nat n) (wq w) a)%Q /\
+      (wnth w a = None -> forall b, 0 <= b < n -> nth (Z.to_nat b) (nth (Z.to_nat a) D []) None = None).
+Proof. exact balanced_read_rowsum. Qed.
+Print Assumptions C10_balanced_read_rowsum.
+
+(** with ignore_diags = d > 0 the loop equalises the matrix without its first d diagonals: the flat quantity of the
+    (unfiltered) read is the nan-sum over the cells with |a - b| >= d *)
+Theorem C10_balanced_read_flat_diags : forall n epx off cs cols balance dw name w chunk d tol fuel b bb mu v k eps,
+  ValidCSR n epx off -> Upper epx -> 1 <= cs -> zlen w = n ->
+  weight_name balance = Some name -> lookup_weights cols name = Some w ->
+  effective_divisive balance dw = false ->
+  chunk_ok chunk -> good_px (Z.to_nat n) (map snd epx) = true ->
+  length b = Z.to_nat n -> NonNeg b ->
+  ic_loop (margf_gw (Z.to_nat n) (balance_spans (zlen (map snd epx)) chunk) [f_zero_diags d] (map snd epx)) tol fuel b = Some (bb, Some mu, v, k) ->
+  (v < tol)%Q -> (0 <= eps)%Q -> (eps < 1)%Q ->
+  (nnz_rows (Fmat [f_zero_diags d] (map snd epx)) (Z.to_nat n) b * tol <= eps * eps * mu * mu)%Q ->
+  StoredWeights w bb mu ->
+  exists D, matrix_balanced epx off cs true Dense cols balance dw (0, n, 0, n) = Some (BDense D) /\
+    forall a, 0 <= a < n -> ~ (rowsum (Fmat [f_zero_diags d] (map snd epx)) (Z.to_nat n) b a == 0)%Q ->
+      (1 / (1 + eps) <= row_nansum_off D a (Z.to_nat n) d /\ row_nansum_off D a (Z.to_nat n) d <= 1 / (1 - eps))%Q.
+Proof. exact balanced_read_flat_diags. Qed.
+Print Assumptions C10_balanced_read_flat_diags.
+
 (** non-vacuity: a concrete genome-wide run of the model (4 bins, non-zero diagonal, ignore_diags = 0) satisfies
     the hypotheses of C10_gw_flatness with eps = 1/5, and a masked bin stays NaN *)
 Example ex_C10_run :
@@ -297,3 +374,16 @@ Proof.
     repeat (apply Sorted.Sorted_cons; [|first [apply Sorted.HdRel_nil | apply Sorted.HdRel_cons; lia]]). apply Sorted.Sorted_nil.
   - eexists. eexists. eexists. eexists. vm_compute. split; reflexivity.
 Qed.
+
+(** non-vacuity of the integration: a stored 3-bin table with a masked bin; the balanced read row sums equal the row
+    sums of diag(w) S diag(w) and the masked row is NaN *)
+Example ex_C10_balanced_read :
+  let px := [((0,0),4); ((0,2),6); ((1,2),3); ((2,2),8)] in
+  let w := [Some (1#2); None; Some (1#4)]%Q in
+  match matrix_balanced (epx_of px) (offsets_of 3 px) 2 true Dense [("weight"%string, w)] (Some None) None (0,3,0,3) with
+  | Some (BDense D) =>
+      Qred (row_nansum D 0 3) = Qred (rowsum (Fmat [] px) 3 (wq w) 0) /\
+      Qred (row_nansum D 2 3) = Qred (rowsum (Fmat [] px) 3 (wq w) 2) /\ nth 1 D [] = [None; None; None]
+  | _ => False
+  end.
+Proof. vm_compute. repeat split; reflexivity. Qed.
